@@ -50,12 +50,9 @@ impl MemoryStore {
     }
 
     fn account(&self, added: usize, removed: usize) {
-        // a scheduling point between the map access and its accounting,
-        // unless a map guard is alive (the caller is inside a critical section)
+        // a scheduling point between the map access and its accounting
         #[cfg(memcrs_verif)]
-        if crate::verif::my_guards() == (0, 0) && crate::verif::all_exclusive() == 0 {
-            crate::verif::yield_atomic("memory_usage.update");
-        }
+        crate::verif::yield_atomic("memory_usage.update");
         if added > 0 {
             self.memory_usage.fetch_add(added as u64, Ordering::Release);
         }
@@ -204,8 +201,6 @@ impl Cache for MemoryStore {
                 value
             });
         } else {
-            #[cfg(memcrs_verif)]
-            let _exclusive = crate::verif::Exclusive::enter();
             self.memory.retain(|_key, value| {
                 self.account(0, value.len());
                 false
